@@ -16,7 +16,16 @@ NAMES = ['a', 'b', 'dflt', 'default']
 QUERIES = ['a', 'b', 'dflt', 'default', 'zzz']
 CONFIGS = ['unset', 'ctor-name', 'ctor-object', 'option-name', 'ctor-empty',
            'ctor-undefined-name', 'option-undefined-name',
-           'ctor-name-option-other', 'option-empty', 'option-none']
+           'ctor-name-option-other', 'option-empty', 'option-none',
+           # check objects of every built-in class (a deny-all object is
+           # still a configured default: it denies)
+           'ctor-object-false', 'ctor-object-true', 'ctor-object-not',
+           'ctor-object-and', 'ctor-object-or', 'ctor-object-role']
+OBJECTS = {'ctor-object-false': '!', 'ctor-object-true': '@',
+           'ctor-object-not': 'not sym:obj',
+           'ctor-object-and': 'sym:obj and sym:obj2',
+           'ctor-object-or': 'sym:obj or sym:obj2',
+           'ctor-object-role': 'role:nobody'}
 BODIES = ['leaf', 'expr', 'ref']
 
 
@@ -53,6 +62,8 @@ def run_table(ctx, config, body):
         ctor = dname = 'dflt'
     elif config == 'ctor-object':
         ctor = dobj = _parser.parse_rule('sym:obj')
+    elif config in OBJECTS:
+        ctor = dobj = _parser.parse_rule(OBJECTS[config])
     elif config == 'option-name':
         conf.set_override('policy_default_rule', 'dflt', group='oslo_policy')
         dname = 'dflt'
@@ -71,13 +82,26 @@ def run_table(ctx, config, body):
     elif config == 'ctor-name-option-other':
         conf.set_override('policy_default_rule', 'b', group='oslo_policy')
         ctor = dname = 'dflt'
-    via = ctx.choice('via', ['ctor-rules', 'set_rules'])
+    from oslo_policy import policy as _policy
+    via = ctx.choice('via', ['ctor-rules', 'set_rules', 'set_rules-Rules',
+                             'set_rules-Rules-other-default',
+                             'ctor-Rules-other-default'])
     if via == 'ctor-rules':
         enf = common.mk_enforcer(rules=dict(rules), default_rule=ctor,
                                  conf=conf)
+    elif via == 'ctor-Rules-other-default':
+        enf = common.mk_enforcer(rules=_policy.Rules(dict(rules), 'b'),
+                                 default_rule=ctor, conf=conf)
     else:
         enf = common.mk_enforcer(default_rule=ctor, conf=conf)
-        enf.set_rules(dict(rules))
+        # the enforcer's configured default rule governs, whatever the
+        # Rules object handed over was built with
+        if via == 'set_rules':
+            enf.set_rules(dict(rules))
+        elif via == 'set_rules-Rules':
+            enf.set_rules(_policy.Rules(dict(rules)))
+        else:
+            enf.set_rules(_policy.Rules(dict(rules), 'b'))
     q = ctx.choice('query', QUERIES)
     # -- oracle -------------------------------------------------------------
     if q in sem:
@@ -87,7 +111,13 @@ def run_table(ctx, config, body):
         want = z3.BoolVal(False)
         ctx.cover('empty-store')
     elif dobj is not None:
-        want = _leaf('obj')
+        want = {'ctor-object': _leaf('obj'),
+                'ctor-object-false': z3.BoolVal(False),
+                'ctor-object-true': z3.BoolVal(True),
+                'ctor-object-not': z3.Not(_leaf('obj')),
+                'ctor-object-and': z3.And(_leaf('obj'), _leaf('obj2')),
+                'ctor-object-or': z3.Or(_leaf('obj'), _leaf('obj2')),
+                'ctor-object-role': z3.BoolVal(False)}[config]
         ctx.cover('default-object')
     elif dname in sem:
         want = sem[dname]
